@@ -4,6 +4,8 @@ CONSTANTS
   MaxStmts = 1000000
   MaxBeginFails = 1000000
   MaxLog = 0
+  BeginOk = {"ok", "okb"}
+  Ctx = TRUE
 INVARIANTS TypeOK StateInv
 VIEW StateView
 CHECK_DEADLOCK FALSE
